@@ -1,5 +1,6 @@
 import RSocketModel.Props.C15
 import RSocketModel.Gen.KeepAliveFn
+import RSocketModel.Gen.KeepAliveTasksFn
 /-!
 # C15 — the echo is the source's `handle_keep_alive`
 
@@ -19,5 +20,24 @@ data comes back unchanged -/
 theorem c15_source_echo_cleared (respond : Bool) (data : List Nat) :
     ∀ r ∈ (Gen.handle_keep_alive respond data).2, r = (false, data) := by
   cases respond <;> simp [Gen.handle_keep_alive]
+
+/-- **the watchdog's test is the source's**: at every check instant the model's `fires` is the
+comparison `_keepalive_timeout_task` makes (`now - last_server_keepalive > max_lifetime`, strict),
+compiled from `rsocket/rsocket_client.py` on every run -/
+theorem c15_check_matches_source (r0 L T : Nat) (arrivals : List Nat) :
+    Gen.keepalive_check T (lastBefore r0 arrivals T) L = fires r0 L arrivals T := by
+  simp only [Gen.keepalive_check, fires, gt_iff_lt]
+
+/-- the sender loop sleeps for the keep-alive period and the watchdog for the maximum lifetime (not
+the other way round), and a firing check clears the alive flag and calls the application -/
+theorem c15_loop_periods :
+    Gen.keepaliveSendSleeps = "_keep_alive_period" ∧ Gen.keepaliveCheckSleeps = "_max_lifetime_period" ∧
+    Gen.keepaliveFireClearsAlive = true ∧ Gen.keepaliveFireCallsHandler = true := by decide
+
+/-- read off the compiled test: exactly at `last + L` the watchdog does not fire yet (strictness) -/
+theorem c15_source_strict (last L : Nat) :
+    Gen.keepalive_check (last + L) last L = false ∧ Gen.keepalive_check (last + L + 1) last L = true := by
+  simp only [Gen.keepalive_check, gt_iff_lt, decide_eq_false_iff_not, decide_eq_true_eq]
+  omega
 
 end RSocketModel.KeepAlive
